@@ -25,15 +25,18 @@ Proofs/Framework.vos Proofs/Framework.vok Proofs/Framework.required_vos: Proofs/
 Proofs/StoreLocks.vo Proofs/StoreLocks.glob Proofs/StoreLocks.v.beautified Proofs/StoreLocks.required_vo: Proofs/StoreLocks.v Model/Mon.vo Model/MonC09.vo
 Proofs/StoreLocks.vio: Proofs/StoreLocks.v Model/Mon.vio Model/MonC09.vio
 Proofs/StoreLocks.vos Proofs/StoreLocks.vok Proofs/StoreLocks.required_vos: Proofs/StoreLocks.v Model/Mon.vos Model/MonC09.vos
-Proofs/Discipline.vo Proofs/Discipline.glob Proofs/Discipline.v.beautified Proofs/Discipline.required_vo: Proofs/Discipline.v Model/Mon.vo
-Proofs/Discipline.vio: Proofs/Discipline.v Model/Mon.vio
-Proofs/Discipline.vos Proofs/Discipline.vok Proofs/Discipline.required_vos: Proofs/Discipline.v Model/Mon.vos
-Proofs/SysInv.vo Proofs/SysInv.glob Proofs/SysInv.v.beautified Proofs/SysInv.required_vo: Proofs/SysInv.v Model/Mon.vo Proofs/Discipline.vo
-Proofs/SysInv.vio: Proofs/SysInv.v Model/Mon.vio Proofs/Discipline.vio
-Proofs/SysInv.vos Proofs/SysInv.vok Proofs/SysInv.required_vos: Proofs/SysInv.v Model/Mon.vos Proofs/Discipline.vos
+Proofs/StorePromises.vo Proofs/StorePromises.glob Proofs/StorePromises.v.beautified Proofs/StorePromises.required_vo: Proofs/StorePromises.v Model/Mon.vo Proofs/StoreLocks.vo
+Proofs/StorePromises.vio: Proofs/StorePromises.v Model/Mon.vio Proofs/StoreLocks.vio
+Proofs/StorePromises.vos Proofs/StorePromises.vok Proofs/StorePromises.required_vos: Proofs/StorePromises.v Model/Mon.vos Proofs/StoreLocks.vos
+Proofs/Discipline.vo Proofs/Discipline.glob Proofs/Discipline.v.beautified Proofs/Discipline.required_vo: Proofs/Discipline.v Model/Mon.vo Proofs/StoreLocks.vo Proofs/StorePromises.vo
+Proofs/Discipline.vio: Proofs/Discipline.v Model/Mon.vio Proofs/StoreLocks.vio Proofs/StorePromises.vio
+Proofs/Discipline.vos Proofs/Discipline.vok Proofs/Discipline.required_vos: Proofs/Discipline.v Model/Mon.vos Proofs/StoreLocks.vos Proofs/StorePromises.vos
+Proofs/SysInv.vo Proofs/SysInv.glob Proofs/SysInv.v.beautified Proofs/SysInv.required_vo: Proofs/SysInv.v Model/Mon.vo Proofs/StoreLocks.vo Proofs/StorePromises.vo Proofs/Discipline.vo
+Proofs/SysInv.vio: Proofs/SysInv.v Model/Mon.vio Proofs/StoreLocks.vio Proofs/StorePromises.vio Proofs/Discipline.vio
+Proofs/SysInv.vos Proofs/SysInv.vok Proofs/SysInv.required_vos: Proofs/SysInv.v Model/Mon.vos Proofs/StoreLocks.vos Proofs/StorePromises.vos Proofs/Discipline.vos
 Proofs/PC09.vo Proofs/PC09.glob Proofs/PC09.v.beautified Proofs/PC09.required_vo: Proofs/PC09.v Model/Mon.vo Model/MonC09.vo Proofs/Framework.vo Proofs/StoreLocks.vo Proofs/Discipline.vo Proofs/SysInv.vo
 Proofs/PC09.vio: Proofs/PC09.v Model/Mon.vio Model/MonC09.vio Proofs/Framework.vio Proofs/StoreLocks.vio Proofs/Discipline.vio Proofs/SysInv.vio
 Proofs/PC09.vos Proofs/PC09.vok Proofs/PC09.required_vos: Proofs/PC09.v Model/Mon.vos Model/MonC09.vos Proofs/Framework.vos Proofs/StoreLocks.vos Proofs/Discipline.vos Proofs/SysInv.vos
-Props/C09.vo Props/C09.glob Props/C09.v.beautified Props/C09.required_vo: Props/C09.v Model/Mon.vo Model/MonC09.vo Proofs/StoreLocks.vo Proofs/PC09.vo
-Props/C09.vio: Props/C09.v Model/Mon.vio Model/MonC09.vio Proofs/StoreLocks.vio Proofs/PC09.vio
-Props/C09.vos Props/C09.vok Props/C09.required_vos: Props/C09.v Model/Mon.vos Model/MonC09.vos Proofs/StoreLocks.vos Proofs/PC09.vos
+Props/C09.vo Props/C09.glob Props/C09.v.beautified Props/C09.required_vo: Props/C09.v Model/Mon.vo Model/MonC09.vo Proofs/StoreLocks.vo Proofs/Discipline.vo Proofs/SysInv.vo Proofs/PC09.vo
+Props/C09.vio: Props/C09.v Model/Mon.vio Model/MonC09.vio Proofs/StoreLocks.vio Proofs/Discipline.vio Proofs/SysInv.vio Proofs/PC09.vio
+Props/C09.vos Props/C09.vok Props/C09.required_vos: Props/C09.v Model/Mon.vos Model/MonC09.vos Proofs/StoreLocks.vos Proofs/Discipline.vos Proofs/SysInv.vos Proofs/PC09.vos
